@@ -62,7 +62,7 @@ def _pick(v, i):
     return v[i] if isinstance(v, list) else v
 
 
-def expected(raw, ti, mi, flux):
+def expected(raw, ti, mi, flux, moved=None):
     from bldfm.utils import compute_wind_fields, ideal_source
     from bldfm.pbl_model import vertical_profiles
     from bldfm.solver import steady_state_transport_solver
@@ -85,6 +85,8 @@ def expected(raw, ti, mi, flux):
         xy = latlon_to_xy(tw["lat"], tw["lon"], dom["ref_lat"], dom["ref_lon"])
     else:
         xy = (0.0, 0.0)
+    if moved is not None:
+        xy = (float(moved[0]), float(moved[1]))
 
     u, v = compute_wind_fields(speed, wdir)
     forcing = dict(z0=z0) if z0 is not None else dict(ustar=ustar)
@@ -132,7 +134,7 @@ def _same(a, b):
 
 
 @S.kind("pipeline")
-def pipeline(raw, tower, met_index, flux=None):
+def pipeline(raw, tower, met_index, flux=None, moved=None):
     import bldfm.config as cfg
     from bldfm.config_parser import parse_config_dict
     from bldfm.interface import run_bldfm_single
@@ -142,8 +144,17 @@ def pipeline(raw, tower, met_index, flux=None):
     config0 = copy.deepcopy(config)
     q_user = _flux(flux)
     q_keep = None if q_user is None else q_user.copy()
-    got = run_bldfm_single(config, config.towers[tower], met_index, q_user)
-    want = expected(raw0, tower, met_index, None if q_keep is None else q_keep.copy())
+    tw_obj = config.towers[tower]
+    if moved is not None:
+        # a tower whose local coordinates were set by hand (a relocated mast: `dataclasses.replace(tower, x=..., y=...)`):
+        # "the tower's local coordinates as measurement point" are the ones it carries
+        import dataclasses
+        tw_obj = dataclasses.replace(tw_obj, x=float(moved[0]), y=float(moved[1]))
+    got = run_bldfm_single(config, tw_obj, met_index, q_user)
+    if moved is not None and (tw_obj.x, tw_obj.y) != (float(moved[0]), float(moved[1])):
+        return Verdict(False, "run_bldfm_single moved the tower it was given: (%r, %r) -> (%r, %r)" % (moved[0], moved[1], tw_obj.x, tw_obj.y),
+                       key="tower-moved")
+    want = expected(raw0, tower, met_index, None if q_keep is None else q_keep.copy(), moved=moved)
 
     bad = []
     for i, nm in enumerate("XYZ"):
@@ -453,6 +464,9 @@ def generate(tier, rng):
                 else:  # a user field need not have the configured size
                     flux = dict(seed=rng.randrange(10 ** 6), ny=dom["ny"] + 2, nx=dom["nx"] - 4)
                 yield "pipeline", dict(raw=raw, tower=ti, met_index=mi, flux=flux)
+                if mi == 0 and ti == 0 and raw["domain"].get("ref_lat") is not None:
+                    yield "pipeline", dict(raw=raw, tower=ti, met_index=mi, flux=flux,
+                                           moved=[round(0.3 * float(dom["xmax"]), 2), round(0.6 * float(dom["ymax"]), 2)])
 
 
 if __name__ == "__main__":
